@@ -67,7 +67,15 @@ def configs(tier):
     for i, e in zip(range(2), ["oserror", "valueerror"]):
         cfgs.append(S.MultiTan(nimg=2, W=2, fail_item=(i,), fail_exc=e))
         cfgs.append(S.MultiWcs(nimg=2, W=2, fail_item=(i,), fail_exc=EX[(i + 2) % 3]))
+    # the calling process owns another, idle child while a walk worker fails (or is killed)
+    cfgs.append(S.Walk(kind="filtered", depth=2, W=2, accepted=WALK3, fail_item=(1, 1, 1), fail_exc="runtime", foreign_child=True))
+    cfgs.append(S.Walk(kind="filtered", depth=2, W=2, accepted=WALK3, fail_item=(1, 0, 0), fail_exc="kill", foreign_child=True))
+    # more images after the failing one than the bounded queue holds (2 x workers + 1): if the surviving
+    # worker stopped early, the producer would block for ever
+    cfgs.append(S.MultiTan(nimg=6, W=2, fail_item=(0,), fail_exc="valueerror"))
     if tier == "thorough":
+        cfgs.append(S.MultiTan(nimg=7, W=2, fail_item=(1,), fail_exc="oserror"))
+        cfgs.append(S.MultiWcs(nimg=6, W=2, fail_item=(0,), fail_exc="runtime"))
         for item in [(1, 1, 0), (1, 1, 1), (0, 0, 0)]:
             cfgs.append(S.Walk(kind="generic", depth=2, W=2, fail_item=item, fail_exc=ex()))
         for item in [(1, 0, 0), (0, 0, 0)]:
